@@ -53,7 +53,7 @@ MALFORMED = [
 ]
 
 def run(res):
-    t_ok, t_log = c05.rs2v()
+    t_ok, t_log = c05.rs2v("option_tables")
     proof = proof_stage(res, "C20", extra_obligations=2) if t_ok else dict(ok=False, discharged=0, log=t_log, broken_at="rs2v: " + t_log[-300:])
     if not t_ok: res.coverage.update(obligations=2, discharged=0, checker_cmd="rs2v", trusted_base=list(TRUSTED_BASE))
     build_harness(); build_cli()
